@@ -109,6 +109,27 @@ fn targeted() -> &'static Vec<Case> {
                     }
                 }
             }
+            // (c) aggregates nested in aggregates over zeros of every kind (flattening / re-association of nested lists)
+            let zeros: Vec<&str> = match ev {
+                Ev::I64 => vec!["0", "1", "(-1)", "(0*1)"],
+                Ev::Dec => vec!["0", "0.0", "(-0)", "(-0.00)", "1", "(-1)"],
+                Ev::Cpx => vec![],
+                _ => vec!["0", "0.0", "(-0.0)", "(-0)", "1", "(-1)", "(0/0)"],
+            };
+            let aggs: Vec<&str> = fs.iter().filter(|f| matches!(f.arity, crate::vocab::Arity::Var1 | crate::vocab::Arity::Var0)).map(|f| f.name).collect();
+            for f in &aggs {
+                for g in &aggs {
+                    for x in &zeros {
+                        for y in &zeros {
+                            for z in &zeros {
+                                push(ev, format!("{}({},@)", f, x), format!("{}({},{})", g, y, z));
+                                push(ev, format!("{}(@,{})", f, x), format!("{}({},{})", g, y, z));
+                                push(ev, format!("1/{}({},@,5)", f, x), format!("{}({},{})", g, y, z));
+                            }
+                        }
+                    }
+                }
+            }
             // (b) every unary context over every binary operation on boundary operands (fusion / peephole rewrites
             // that look through the brackets at the operation underneath)
             let mut unary: Vec<String> = fs.iter().filter(|f| f.arity == crate::vocab::Arity::One).map(|f| format!("{}(@)", f.name)).collect();
@@ -149,17 +170,52 @@ impl Prop for C20Prop {
         "C20"
     }
     fn rule(&self) -> String {
-        "Exhaustive targeted block: (a) the hole in every argument position of every function and on each side of every operator, with the subexpression ranging over non-literal spellings of values an implementation might special-case (0, 1, 2, -1, 0.5, 10, e, pi, inf, -0) and companion arguments from a boundary list; (b) every unary context (every arity-1 function, -@, @², @!, ⌊@⌋, ⌈@⌉, @°) over every binary operation a op b on a boundary operand list (values beyond 2^53, halves, scaled decimals). Then random triples (C, E, q): C a well-formed expression with exactly one @ in operand or argument position (a random leaf of a random tree: operator sides, prefix/postfix operands, every argument index incl. aggregates, under brackets, base or exponent), E a well-formed expression of the same evaluator over boundary operands (NaN, +-inf, -0.0, Float vs Integer, scaled Decimals, i64 extremes via its own @ bound to q). Three public calls: v = eval(E,q); if Ok(v): eval(C[@:=(E)], q) must equal eval(C, v) - same Ok bits (NaNs identified, Number variant, Decimal value and scale) or Err in both. non-trivial = E has >=1 operator, C has >=1 operator, v is not the type's default; distinct by (evaluator,C,E,q).".into()
+        "Exhaustive targeted block: (a) the hole in every argument position of every function and on each side of every operator, with the subexpression ranging over non-literal spellings of values an implementation might special-case (0, 1, 2, -1, 0.5, 10, e, pi, inf, -0) and companion arguments from a boundary list; (b) every unary context (every arity-1 function, -@, @², @!, ⌊@⌋, ⌈@⌉, @°) over every binary operation a op b on a boundary operand list (values beyond 2^53, halves, scaled decimals). (c) every aggregate nested in every aggregate over zeros of every kind (0, 0.0, -0.0, Integer vs Float). Then `split`: one random expression over boundary operands split at a random inner node into (C, E); and random triples (C, E, q): C a well-formed expression with exactly one @ in operand or argument position (a random leaf of a random tree: operator sides, prefix/postfix operands, every argument index incl. aggregates, under brackets, base or exponent), E a well-formed expression of the same evaluator over boundary operands (NaN, +-inf, -0.0, Float vs Integer, scaled Decimals, i64 extremes via its own @ bound to q). Three public calls: v = eval(E,q); if Ok(v): eval(C[@:=(E)], q) must equal eval(C, v) - same Ok bits (NaNs identified, Number variant, Decimal value and scale) or Err in both. non-trivial = E has >=1 operator, C has >=1 operator, v is not the type's default; distinct by (evaluator,C,E,q).".into()
     }
     fn subs(&self, tier: Tier) -> Vec<Sub> {
-        vec![Sub { name: "targeted", kind: SubKind::Enum { count: targeted().len() as u64 } }, Sub { name: "compose", kind: SubKind::Random { cases: tier.pick(500_000, 20_000_000), len: 200 } }]
+        vec![
+            Sub { name: "targeted", kind: SubKind::Enum { count: targeted().len() as u64 } },
+            Sub { name: "compose", kind: SubKind::Random { cases: tier.pick(500_000, 20_000_000), len: 200 } },
+            Sub { name: "split", kind: SubKind::Random { cases: tier.pick(400_000, 20_000_000), len: 200 } },
+        ]
     }
     fn gen_enum(&self, _sub: &str, idx: u64, _tier: Tier) -> Option<Case> {
         targeted().get(idx as usize).cloned()
     }
-    fn gen(&self, _sub: &str, c: &mut dyn Choices) -> Option<Case> {
+    fn gen(&self, sub: &str, c: &mut dyn Choices) -> Option<Case> {
         let ev = Ev::ALL[c.below(5) as usize];
         let q = pick_ph(ev, c);
+        if sub == "split" {
+            // one random expression over boundary operands, split at a random inner node: the subexpression and its
+            // context keep the shapes real expressions have (sums of squares under a root, a quotient under floor …)
+            let mut p = sub_profile(ev);
+            p.ans = false;
+            p.max_depth = 5;
+            let t = gen::gen_expr(&p, c, p.max_depth);
+            let n = grammar::size(&t);
+            let k = c.below(n as u32) as usize;
+            let mut picked: Option<E> = None;
+            let mut counter = 0;
+            let ctx = grammar::map_nodes(&t, &mut counter, &mut |i, node| {
+                if i == k {
+                    picked = Some(node);
+                    E::Ans
+                } else {
+                    node
+                }
+            });
+            let s = picked?;
+            if matches!(s, E::Lit(_) | E::Const(_)) {
+                return None;
+            }
+            let (ctx, s) = (grammar::render(&ctx), grammar::render(&s));
+            if char_len(&ctx) + char_len(&s) > 300 {
+                return None;
+            }
+            let mut case = Case::new(ev, ctx, q);
+            case.aux = vec![s];
+            return Some(case);
+        }
         let cp = ctx_profile(ev);
         let tree = gen::gen_expr(&cp, c, cp.max_depth);
         let k = c.below(64) as usize;
